@@ -125,7 +125,7 @@ def run(ctx):
     ctx.assumptions = ["regex functions, hashes, base64, latin1, printf verbs: oracle comparison only (no Coq model): partial",
                        "full Unicode case mapping is outside the model"]
     forbidden_gate(ctx, ["Base", "C15"])
-    ok, why = check_props(ctx, "C15/Props.v", ["C15/Harness.vo", "C15/Proofs.vo"])
+    ok, why = check_props(ctx, "C15/Props.v", ["C15/Harness.vo", "C15/Proofs.vo", "C15/Utf8Proofs.vo"])
     rng = ctx.rng
     terms, meta, oracle_bad = [], [], []
 
@@ -234,6 +234,11 @@ def run(ctx):
         for row, o in zip(rows1, r1):
             _, s, m, k, pad, w = row; m, k, w = int(m), int(k), int(w)
             rs = go_runes(s); n = len(rs)
+            try:
+                s.decode("utf-8"); pyvalid = 1
+            except UnicodeDecodeError:
+                pyvalid = 0
+            case(19, pyvalid, 0, s, b"", b"", b"", {"fn": "valid_utf8 (recogniser vs python strict decoding)", "s": s.hex()})
             if o["len"] != ERR:
                 case(0, int(o["len"]), 0, s, b"", b"", b"", {"fn": "strlen", "s": s.hex()})
                 if int(o["len"]) != n:
@@ -355,8 +360,9 @@ def run(ctx):
             want = ref_fmtnum(n, f)
             if want is not None and o["o"] != want:
                 mm = re.fullmatch(r"[^%]*%[-+ 0#]*\d*(?:\.\d+)?(?:ll|l)?([a-zA-Z])(.*)", f)
-                cls = ("fmtnum-trailing-text" if mm and mm.group(2) else "fmtnum-verb-unsupported" if mm and mm.group(1) in "obXEG"
-                       else "fmtnum-x-negative-not-twos-complement" if mm and mm.group(1) == "x" and n.startswith("-") else "fmtnum-printf")
+                cls = ("fmtnum-trailing-text" if mm and mm.group(2)
+                       else "fmtnum-x-negative-not-twos-complement" if mm and mm.group(1) in "xXob" and n.startswith("-")
+                       else "fmtnum-verb-unsupported" if mm and mm.group(1) in "obXEG" and "%!" in o["o"] else "fmtnum-printf")
                 bad(cls, input={"value": n, "format": f}, observed=o["o"], expected=want, how="mlr -n put 'end{print fmtnum(%s, \"%s\")}'" % (n, f))
         ctx.dist("fmtnum_rows", len(rows7))
         # (6) verbs
